@@ -30,6 +30,7 @@ def one(spec, confirm):
         shutil.rmtree(d, ignore_errors=True)
     sh("git -C /repo worktree prune")
     res = dict(meta.get("verification") or {}, name=name)
+    res.pop("error", None)
     res.setdefault("checks", {})
     try:
         rc, o = sh("git -C /repo worktree add --detach %s HEAD" % wt)
